@@ -669,6 +669,15 @@ def run_forked(ctx, world, jobs):
 
 # ---------------------------------------------------------------- entry points
 
+def translators(ctx):
+    """Generated/DlCloseSteps.lean: the order of the steps of both dlclose implementations, GIL release and the
+    closed checks, re-extracted from the working tree (Model/DlClose.closeStep is built from it)."""
+    sys.path.insert(0, os.path.join(common.VERIF, "translate"))
+    import c37_steps
+    return [c37_steps.run]
+
+
+
 def explore(ctx, nseq_pinned, nseq_forked, nrace, rng, oracle_only=False):
     world = World(ctx)
     all_lines, pending = [], []
